@@ -26,8 +26,17 @@ var tokTail = []string{"x", "-a", "-z", "--zz", "--", "-", "-o", "-o=", "--a"}
 type outcomeTable struct {
 	d    *ref.Decl
 	spec string
+	env  map[string]string // options backed by a set environment variable (nil: none)
 	memo map[string]string
 	runs int64
+}
+
+func (t *outcomeTable) key(a, b []string) string {
+	k := metaKey(t.spec, a, b)
+	if len(t.env) > 0 {
+		k += " env=" + envText(t.env)
+	}
+	return k
 }
 
 func (t *outcomeTable) of(argv []string) string {
@@ -35,7 +44,7 @@ func (t *outcomeTable) of(argv []string) string {
 	if o, ok := t.memo[k]; ok {
 		return o
 	}
-	obs := runLang(t.d, t.spec, argv, langOpts{})
+	obs := runLang(t.d, t.spec, argv, langOpts{env: t.env})
 	t.runs++
 	o := "R"
 	switch {
@@ -68,9 +77,9 @@ func runMeta(c *Ctx) {
 		decl   string
 	}
 	tokMetaAlt := []string{"x", "v", "--", "-a", "--aa", "-n", "-m", "-nm", "-mn", "-na", "-o", "-ov", "-o=v", "--out=v", "--out", "--output=v", "--output"}
-	tiers := []tier{{leavesFull, size, toks, alen, ""}, {leavesNest, 4, []string{"x", "-a", "--"}, 3, ""}, {leavesAlt, 2, tokMetaAlt, 3, "alt"}}
+	tiers := []tier{{leavesFull, size, toks, alen, ""}, {leavesNest, 4, []string{"x", "-a", "--"}, 3, ""}, {leavesAlt, 2, tokMetaAlt, 3, "alt"}, {leavesNum, 2, tokNum, 3, "num"}}
 	if c.Thorough() {
-		tiers = []tier{{leavesFull, 3, tokMeta, 3, ""}, {leavesFull, 3, tokMetaSm, 4, ""}, {leavesMid, 4, tokMetaSm, 3, ""}, {leavesNest, 5, []string{"x", "-a", "--", "-"}, 3, ""}, {leavesAlt, 3, tokMetaAlt, 3, "alt"}}
+		tiers = []tier{{leavesFull, 3, tokMeta, 3, ""}, {leavesFull, 3, tokMetaSm, 4, ""}, {leavesMid, 4, tokMetaSm, 3, ""}, {leavesNest, 5, []string{"x", "-a", "--", "-"}, 3, ""}, {leavesAlt, 3, tokMetaAlt, 3, "alt"}, {leavesNum, 3, tokNum, 3, "num"}}
 	}
 	idx := 0
 	var asLang []langTier
@@ -131,6 +140,18 @@ func runMeta(c *Ctx) {
 					metaC11(c, tab, argvs, readings)
 				}
 				c.Count("runs_of_real_code", tab.runs)
+				// the same two relations with both env-backed options satisfied by their environment variables
+				if t.decl == "" && ti == 0 && (n <= 2 || c.Thorough()) {
+					tabE := &outcomeTable{d: d, spec: spec, env: envSubsets[3], memo: map[string]string{}}
+					if c.On("C10") {
+						metaC10(c, tabE, argvs, readings)
+					}
+					if c.On("C11") {
+						metaC11(c, tabE, argvs, readings)
+					}
+					c.Count("runs_of_real_code", tabE.runs)
+					c.Count("tables_with_environment", 1)
+				}
 			}
 		}
 		if c.Shard == 0 {
@@ -145,7 +166,11 @@ func metaKey(spec string, a, b []string) string {
 
 // metaCase builds the replayable case of a metamorphic pair.
 func metaCase(t *outcomeTable, a, b []string, rel string) Case {
-	return Case{"spec": t.spec, "argv": a, "argv2": b, "rel": rel, "decl": declName(t.d)}
+	cs := Case{"spec": t.spec, "argv": a, "argv2": b, "rel": rel, "decl": declName(t.d)}
+	if len(t.env) > 0 {
+		cs["env"] = t.env
+	}
+	return cs
 }
 
 // ---- C09 part 1: inserting `--` anywhere in the trailing block of non-dash positionals changes nothing
@@ -176,7 +201,7 @@ func metaC09(c *Ctx, t *outcomeTable, argvs [][]string, rd []ref.Reading) {
 				c.Count("C09:nontrivial", 1)
 			}
 			if got != base {
-				c.Violation("C09", metaKey(t.spec, argv, w), metaCase(t, argv, w, "C09"),
+				c.Violation("C09", t.key(argv, w), metaCase(t, argv, w, "C09"),
 					"same outcome after inserting `--` at position "+fmt.Sprint(p)+": "+base, got)
 			} else if c.WantSample("C09:insertion") && base != "R" && len(argv) >= 2 {
 				c.Sample("C09:insertion", Case{"spec": t.spec, "argv": argv, "with_marker": w, "outcome_both": base})
@@ -227,7 +252,7 @@ func metaC10(c *Ctx, t *outcomeTable, argvs [][]string, rd []ref.Reading) {
 			c.Count("C10:nontrivial", 1)
 		}
 		if out != b.out {
-			c.Violation("C10", metaKey(t.spec, b.first, argv), metaCase(t, b.first, argv, "C10"),
+			c.Violation("C10", t.key(b.first, argv), metaCase(t, b.first, argv, "C10"),
 				"same outcome for two spellings of the same occurrences: "+b.out, out)
 		} else if c.WantSample("C10:respelling") && out != "R" && len(argv) >= 2 && strings.Join(argv, " ") != strings.Join(b.first, " ") {
 			c.Sample("C10:respelling", Case{"spec": t.spec, "spelling_1": b.first, "spelling_2": argv, "outcome_both": out})
@@ -300,7 +325,7 @@ func metaC11(c *Ctx, t *outcomeTable, argvs [][]string, rd []ref.Reading) {
 				c.Count("C11:nontrivial", 1)
 			}
 			if base != got {
-				c.Violation("C11", metaKey(t.spec, argv, w), metaCase(t, argv, w, "C11"),
+				c.Violation("C11", t.key(argv, w), metaCase(t, argv, w, "C11"),
 					"same outcome after moving a folded token past an adjacent occurrence of a different option: "+base, got)
 			}
 		}
@@ -337,7 +362,7 @@ func metaC11(c *Ctx, t *outcomeTable, argvs [][]string, rd []ref.Reading) {
 				c.Count("C11:nontrivial", 1)
 			}
 			if base != got {
-				c.Violation("C11", metaKey(t.spec, argv, w), metaCase(t, argv, w, "C11"),
+				c.Violation("C11", t.key(argv, w), metaCase(t, argv, w, "C11"),
 					"same outcome after swapping two adjacent occurrences of different options: "+base, got)
 			} else if c.WantSample("C11:swap") && base != "R" && len(argv) >= 2 {
 				c.Sample("C11:swap", Case{"spec": t.spec, "argv": argv, "swapped": w, "outcome_both": base})
@@ -407,9 +432,15 @@ func replayMeta(c *Ctx, cs Case) {
 		return
 	}
 	t := &outcomeTable{d: d, spec: spec, memo: map[string]string{}}
+	if em, ok := cs["env"].(map[string]interface{}); ok {
+		t.env = map[string]string{}
+		for k, v := range em {
+			t.env[k], _ = v.(string)
+		}
+	}
 	a, b := cStrs(cs, "argv"), cStrs(cs, "argv2")
 	oa, ob := t.of(a), t.of(b)
 	if oa != ob {
-		c.Violation(rel, metaKey(spec, a, b), cs, "same outcome: "+oa, ob)
+		c.Violation(rel, t.key(a, b), cs, "same outcome: "+oa, ob)
 	}
 }
